@@ -1540,11 +1540,14 @@ fn cast_num(
             // float to int
 
             // cranelift can only convert floats to i32 or i64, so we do that first,
-            // then cast the i32 or i64 to the actual one we want
-            let int_to = match cast_from.bit_width() {
-                32 => types::I32,
-                64 => types::I64,
-                _ => unreachable!(),
+            // then cast the i32 or i64 to the actual one we want.
+            //
+            // the intermediate int is chosen by the *target* so that e.g. `i64.(3e9 as f32)`
+            // isn't clamped to `i32::MAX`
+            let int_to = if cast_to.bit_width() <= 32 {
+                types::I32
+            } else {
+                types::I64
             };
 
             let first_cast = if cast_to.signed {
@@ -1554,7 +1557,7 @@ fn cast_num(
             };
 
             // now we can convert the `first_cast` int value to the actual int type we want
-            match cast_from.bit_width().cmp(&cast_to.bit_width()) {
+            match (int_to.bits() as u8).cmp(&cast_to.bit_width()) {
                 std::cmp::Ordering::Less if cast_to.signed => {
                     builder.ins().sextend(cast_to.ty, first_cast)
                 }
@@ -1566,20 +1569,17 @@ fn cast_num(
         (false, true) => {
             // int to float
 
-            // first we have to convert the int to an int that can converted to float
-            let int_to = match cast_to.bit_width() {
-                32 => types::I32,
-                64 => types::I64,
-                _ => unreachable!(),
-            };
-
-            let first_cast = match cast_from.bit_width().cmp(&cast_to.bit_width()) {
-                std::cmp::Ordering::Less if cast_from.signed && cast_to.signed => {
-                    builder.ins().sextend(int_to, val)
-                }
-                std::cmp::Ordering::Less => builder.ins().uextend(int_to, val),
-                std::cmp::Ordering::Equal => val,
-                std::cmp::Ordering::Greater => builder.ins().ireduce(int_to, val),
+            // cranelift can convert i32 and i64 to both f32 and f64.
+            // smaller ints are extended (according to their own sign) first.
+            // the int must never be shortened to the width of the float,
+            // that would throw away the upper bits of e.g. `f32.(i64::MAX)`
+            //
+            // todo: 128 bit ints are still cut down to 64 bits
+            let first_cast = match cast_from.bit_width() {
+                8 | 16 if cast_from.signed => builder.ins().sextend(types::I32, val),
+                8 | 16 => builder.ins().uextend(types::I32, val),
+                32 | 64 => val,
+                _ => builder.ins().ireduce(types::I64, val),
             };
 
             // now we can convert that 32 or 64 bit int into a 32 or 64 bit float
@@ -1591,8 +1591,11 @@ fn cast_num(
         }
         (false, false) => {
             // int to int
+            //
+            // whether the upper bits are filled with the sign only depends on the source type
+            // (`u16.(i8.(-1))` is `0xFFFF`, just like in C)
             match cast_from.bit_width().cmp(&cast_to.bit_width()) {
-                std::cmp::Ordering::Less if cast_from.signed && cast_to.signed => {
+                std::cmp::Ordering::Less if cast_from.signed => {
                     builder.ins().sextend(cast_to.ty, val)
                 }
                 std::cmp::Ordering::Less => builder.ins().uextend(cast_to.ty, val),
